@@ -1,0 +1,24 @@
+//go:build verif
+
+package decoder
+
+import "github.com/tidwall/gjson"
+
+// Exported wrappers for the C12 correspondence harness (add-only, built only with -tags verif).
+
+// VerifCutFieldsBySize runs jsonDecoder.cutFieldsBySize (json_max_fields_size) on data.
+// The returned slice may alias data (the cut is done in place).
+func VerifCutFieldsBySize(d Decoder, data []byte) []byte {
+	return d.(*jsonDecoder).cutFieldsBySize(data)
+}
+
+// VerifJsonFind reports what cutFieldsBySize's findPos gets from gjson for one path: document
+// validity, existence and type of the value, v.Index and len(v.Str).
+func VerifJsonFind(data []byte, path string) (valid, exists, isString bool, index, strLen int) {
+	valid = gjson.ValidBytes(data)
+	if !valid || path == "" {
+		return valid, false, false, 0, 0
+	}
+	v := gjson.GetBytes(data, path)
+	return valid, v.Exists(), v.Type == gjson.String, v.Index, len(v.Str)
+}
